@@ -8,9 +8,10 @@ import vlib
 
 POOL = {1: "0", 2: "2", 3: "75", 4: "50", 5: "0.3", 6: "7", 7: "750", 8: "-75", 9: "+75", 10: ".5", 11: "1.5", 12: "1e3", 13: "999999",
         14: "1000000", 15: "1000001", 16: "16777215", 17: "16777217", 18: "2147483647", 19: "-2147483648", 20: "0.1", 21: "1e-7",
-        22: "1.234567", 23: "100.5", 24: "33.3333333", 25: "+.5", 26: "-0", 27: "+26", 28: "1E2", 29: "2", 30: "+1"}
+        22: "1.234567", 23: "100.5", 24: "33.3333333", 25: "+.5", 26: "-0", 27: "+26", 28: "1E2", 29: "2", 30: "+1", 31: "1e37"}
 PLACEHOLDERS = {"~E~": "é", "~Z~": "字", "~M~": "😀", "~L~": "«", "~R~": "»"}
 F32_EPS = Fraction(1, 2 ** 23)
+F32_MAX = Fraction(2 ** 128 - 2 ** 104)
 
 
 def spell_unit(u, escaped=False):
@@ -50,6 +51,7 @@ class Concretiser:
         self.pos = {}
         self.multiline = multiline
         self.escape_units = rnd.random() < 0.12      # a sheet in which no unit is written plainly
+        self.caps_rpx = rnd.choice(["RPX", "Rpx", "rPX"]) if rnd.random() < 0.12 else None   # units are ASCII case-insensitive
 
     def emit(self, s):
         self.out.append(s)
@@ -127,7 +129,10 @@ class Concretiser:
         elif k == "url":
             self.emit(self.url(t["v"]))
         elif k == "dim":
-            self.emit(POOL[t["n"]] + spell_unit(t["unit"], self.escape_units))
+            if t["unit"] == "rpx" and self.caps_rpx:
+                self.emit(POOL[t["n"]] + self.caps_rpx)
+            else:
+                self.emit(POOL[t["n"]] + spell_unit(t["unit"], self.escape_units))
         elif k == "num":
             self.emit(POOL[t["n"]])
         elif k == "pct":
@@ -205,10 +210,13 @@ class Concretiser:
             self.emit("@IMPORT " if it["form"] == "STRING" else "@import ")
             self.mark((key, "p"))
             self.emit(self.url(it["path"]) if it["form"] == "url" else self.string(it["path"]))
+            caps = it["form"] == "STRING"
             if it["layer"] != "none":
-                self.emit(" layer" if it["layer"] == "" else " layer(%s)" % it["layer"])
+                kw = "LAYER" if caps else "layer"
+                name = it["layer"] + ("." + it["sub"] if it.get("sub") else "")
+                self.emit(" " + kw if it["layer"] == "" else " %s(%s)" % (kw, name))
             if it["supports"]:
-                self.emit(" supports(")
+                self.emit(" SUPPORTS(" if caps else " supports(")
                 self.toks(it["supports"])
                 self.emit(")")
             self.toks(it["media"])
@@ -269,11 +277,13 @@ def tok_matches(exp, act, ratio, findings, where):
         vin = num_value(sp)
         v = act["v"]
         got = Fraction(v["v"]) if not isinstance(v["v"], str) else None
+        if exp.get("conv") and abs(vin * 100 / Fraction(ratio)) > F32_MAX:
+            return None          # the converted length is beyond single precision: no value to compare with
         if got is None:
             return "non-finite number"
         if exp.get("conv"):
             want = vin * 100 / Fraction(ratio)
-            if exp.get("bare") and (v.get("unit") or "") == "rpx":
+            if exp.get("bare") and (v.get("unit") or "").lower() == "rpx":
                 findings.append(("numbers:bare-prelude", where, "%srpx standing bare in an at-rule prelude is not converted: %s" % (sp, act["text"])))
                 return None
             if (v.get("unit") or "") != "vw":
